@@ -108,7 +108,7 @@ add_binfunc!(add_int_div, div, X_INT, Int, X_FLOAT, |a: &LazyBigint,
     Ok(if b.is_zero() {
         Err(ManagedXError::new("Division by zero", rt.clone())?)
     } else {
-        rt.can_allocate(a.prospective_size() - b.prospective_size())?;
+        rt.can_allocate(a.prospective_size().saturating_sub(b.prospective_size()))?;
         XValue::float(a.clone().true_div(b.clone()), rt)?
     })
 });
@@ -122,7 +122,7 @@ add_binfunc!(
         Ok(if b.is_zero() {
             Err(ManagedXError::new("Division by zero", rt.clone())?)
         } else {
-            rt.can_allocate(a.prospective_size() - b.prospective_size())?;
+            rt.can_allocate(a.prospective_size().saturating_sub(b.prospective_size()))?;
             Ok(XValue::Int(a.clone().div_floor(b.clone())))
         })
     }
@@ -138,7 +138,7 @@ add_binfunc!(
         Ok(if b.is_zero() {
             Err(ManagedXError::new("Division by zero", rt.clone())?)
         } else {
-            rt.can_allocate(a.prospective_size() - b.prospective_size())?;
+            rt.can_allocate(a.prospective_size().saturating_sub(b.prospective_size()))?;
             Ok(XValue::Int(a.clone().div_ceil(b.clone())))
         })
     }
